@@ -494,7 +494,7 @@ func run(c *mon.Ctx) {
 	c.Floor("event.no_pts", 500)
 	depths := []int{3}
 	if c.Thorough() {
-		depths = []int{3, 4, 5}
+		depths = []int{3, 4, 5, 6}
 	}
 	for _, depth := range depths {
 		total := 1
@@ -505,5 +505,5 @@ func run(c *mon.Ctx) {
 		c.Exhaustive(fmt.Sprintf("all sequences of %d symbols over the %d-symbol alphabet", depth, alphabet), int64(total))
 		c.StreamSeedless(fmt.Sprintf("exhaustive-depth-%d", depth), total, func(i int, r *gen.Rand) { exhaustive(c, i, dd) })
 	}
-	c.Stream("random", c.N(40000, 3000000), func(i int, r *gen.Rand) { random(c, r) })
+	c.Stream("random", c.N(40000, 30000000), func(i int, r *gen.Rand) { random(c, r) })
 }
